@@ -268,6 +268,27 @@ def replay_file(path, src=None):
     return rep, res
 
 
+def _digest_chunk(scen_name, prop, tier, base_seed, indices, src):
+    out = _worker_chunk(scen_name, prop, tier, base_seed, indices, src)
+    return [(i, res.get('digest') or ('ERR:' + str(res.get('error'))[-200:]), res.get('steps'),
+             sorted(v['sig'] for v in res.get('violations', ()))) for i, seed, case, res in out]
+
+
+def digests(prop, scen_name, tier, base_seed, n, jobs=16, src=None, reverse=False):
+    idx = list(range(n))
+    if reverse:
+        idx.reverse()
+    chunks = [idx[i::jobs] for i in range(jobs)] if not reverse else [idx[i:i + 7] for i in range(0, n, 7)]
+    res = {}
+    ctx = _mp.get_context('fork')
+    with ProcessPoolExecutor(max_workers=jobs, mp_context=ctx) as ex:
+        futs = [ex.submit(_digest_chunk, scen_name, prop, tier, base_seed, c, src) for c in chunks if c]
+        for f in futs:
+            for i, d, st, sg in f.result():
+                res[str(i)] = [d, st, sg]
+    return res
+
+
 # ---------------------------------------------------------------------- batch
 def run_batch(prop, scen_name, tier, base_seed, n_runs, wall_budget, jobs=16, src=None,
               chunk=8, evidence_extra=None, level_text='exploration'):
